@@ -377,6 +377,7 @@ class StubsLib(StubsBase):
             "ceil": Stub(lambda c, x: self.np_floorceil(c, x, True), "np.ceil"),
             "round": Stub(lambda c, x, decimals=0: self.np_round(c, x), "np.round"),
             "iscomplexobj": Stub(self.np_iscomplexobj, "np.iscomplexobj"),
+            "result_type": Stub(self.np_result_type, "np.result_type"),
             "allclose": Stub(self.np_allclose, "np.allclose"),
             "all": Stub(self.np_all, "np.all"),
             "bool_": Stub(lambda c, x: x, "np.bool_"),
@@ -567,6 +568,23 @@ class StubsLib(StubsBase):
         if isinstance(x, Qty):
             return self.qty_getattr(x, "round", ctx).fn(ctx)
         return V.rint_real(ctx, x)
+
+    def np_result_type(self, ctx, *args):
+        """np.result_type of dtypes / arrays: answered by the installed NumPy on the dtype names."""
+        import numpy as _np
+        ds = []
+        for a in args:
+            if isinstance(a, SArr):
+                ds.append(_np.dtype(a.dtype.name))
+            elif isinstance(a, Qty) and isinstance(a.val, SArr):
+                ds.append(_np.dtype(a.val.dtype.name))
+            else:
+                try:
+                    ds.append(_np.dtype(self.to_dtype(a).name))
+                except Unsupported:
+                    raise Unsupported("np.result_type of a Python scalar / unknown operand")
+        ctx.note("stub:np.result_type answered by the installed NumPy")
+        return DType(_np.result_type(*ds).name)
 
     def np_iscomplexobj(self, ctx, x):
         if isinstance(x, SArr):
